@@ -27,6 +27,27 @@ def PoseRelation.isAngle : PoseRelation → Bool
   | .angleRad | .angleDeg => true
   | _ => false
 
+/-- `PoseRelation.<member>.value` -/
+def PoseRelation.value : PoseRelation → String
+  | .full => "full transformation" | .trans => "translation part" | .rot => "rotation part"
+  | .angleRad => "rotation angle in radians" | .angleDeg => "rotation angle in degrees"
+  | .pointDist => "point distance" | .ratio => "point distance error ratio"
+
+/-- `APE(rel).unit.value` (set in `APE.__init__`) -/
+def PoseRelation.apeUnit : PoseRelation → String
+  | .trans | .pointDist => "m"
+  | .angleDeg => "deg"
+  | .angleRad => "rad"
+  | _ => "unit-less"
+
+/-- `RPE(rel).unit.value` (set in `RPE.__init__`) -/
+def PoseRelation.rpeUnit : PoseRelation → String
+  | .trans | .pointDist => "m"
+  | .ratio => "%"
+  | .angleDeg => "deg"
+  | .angleRad => "rad"
+  | _ => "unit-less"
+
 /-- rational core of one error value; the reported number is
 * `sqrt r`            ↦ `√r`
 * `angle c s2 deg`    ↦ `θ = atan2(√s2, c) ∈ [0, π]` (`c = cos θ`, `s2 = sin² θ`), `·180/π` if `deg`
